@@ -287,6 +287,11 @@ def _sp(m, opts):
 
 
 reg('get_distances', ['sq', 'bip'], _dist, seeds='sources', fn=P.get_distances, exact=True)
+# the same graph handed over as its transpose with transpose=True (rows and columns of a rectangular biadjacency then trade places
+# INSIDE the function: offsets of column sources and the split of the stacked distances must use the shape after transposition)
+reg('get_distances[transpose]', ['sq', 'bip'],
+    lambda m, o: _dist(sparse.csr_matrix(sparse.csr_matrix(m).T), dict(o, params=dict(o.get('params', {}), transpose=True))),
+    seeds='sources', fn=P.get_distances, exact=True)
 reg('get_shortest_path', ['sq', 'bip'], _sp, seeds='sources', fn=P.get_shortest_path, exact=True)
 reg('breadth_first_search', ['sq'], lambda m, o: {'reached': ('raw', sorted(int(x) for x in P.breadth_first_search(m, o['sources']['source'])))},
     seeds='source1', fn=P.breadth_first_search, exact=True, equiv=False)
